@@ -533,6 +533,7 @@ class SymX:
         self.repo_method_names = {n for c in repo.classes.values() for n in c.methods} | {f.name for f in repo.funcs.values() if f.cls is None and f.outer is None}
         self.box_site: dict[int, int] = {}  # box id -> id of the AST node that created it
         self.box_loops: dict[int, tuple] = {}  # box id -> ids of the loops that were running when it was created
+        self.gen_calls: dict[int, tuple] = {}  # id of a collected generator run -> (callee, call, receiver, args, kwargs, pure)
         self.box_init: dict[int, Term] = {}  # box id -> contents at creation
         self._iter_loops: dict[Term, tuple] = {}  # iterator term -> loops running when it was created
         self.mutable_sites: set[int] | None = None  # creation sites whose containers are mutated / escape (known after a first pass)
@@ -567,6 +568,7 @@ class SymX:
         self.atoms = {}
         self.box_site = {}
         self.box_loops = {}
+        self.gen_calls = {}
         self.box_init = {}
         self._iter_loops = {}
         self._class_consts = {}
@@ -700,6 +702,17 @@ class SymX:
             return TRUE  # str.split never returns an empty list
         if _nonempty_str(t):
             return TRUE
+        if tag == "call" and t[1] == ("builtin", "isinstance") and len(t[2]) == 2 and not t[3]:
+            # the class of an object constructed on the way is known (records dispatched by the consumer of a generator)
+            obj, klass = t[2]
+            if obj[0] == "phi":
+                return simplify(f_or([f_and([g, self.truth(("call", t[1], (x, klass), ()))]) for g, x in obj[1]]))
+            wanted = [klass] if klass[0] == "cls" else list(klass[1]) if klass[0] == "tuple" else []
+            if obj[0] == "new" and wanted and all(w[0] == "cls" for w in wanted):
+                ci = self.repo.classes.get(obj[1])
+                mine = {c.fq for c in self.repo.mro(ci)} if ci is not None else {obj[1]}
+                if ci is None or all(w[1] in self.repo.classes for w in wanted):
+                    return ("const", any(w[1] in mine for w in wanted))
         if tag == "call" and t[1] == ("builtin", "bool") and len(t[2]) == 1:
             return self.truth(t[2][0])
         if tag == "call" and t[1] == ("builtin", "len") and len(t[2]) == 1:
@@ -815,6 +828,8 @@ class SymX:
             return st
         if isinstance(s, ast.If):
             return self._if(s, st)
+        if isinstance(s, ast.Match):
+            return self._match_cases(self.eval(s.subject, st), list(s.cases), st, s)
         if isinstance(s, (ast.For, ast.AsyncFor)):
             return self._for(s, st)
         if isinstance(s, ast.While):
@@ -920,6 +935,74 @@ class SymX:
         b = self._block(s.orelse, b) if s.orelse else b
         return self._merge(a, b, base)
 
+    def _pattern(self, p: ast.pattern, v: Term, st: State) -> "tuple[Formula, list[tuple[str, Term]]]":
+        """(condition, captures) of matching the value `v` against a `match` pattern."""
+        if isinstance(p, ast.MatchAs):
+            if p.pattern is None:
+                return TRUE, ([(p.name, v)] if p.name else [])
+            c, b = self._pattern(p.pattern, v, st)
+            return c, b + ([(p.name, v)] if p.name else [])
+        if isinstance(p, ast.MatchValue):
+            return self.truth(("cmp", "==", v, self.eval(p.value, st))), []
+        if isinstance(p, ast.MatchSingleton):
+            return self.truth(("cmp", "is", v, const(p.value))), []
+        if isinstance(p, ast.MatchOr):
+            alts = [self._pattern(q, v, st) for q in p.patterns]
+            if any(b for _c, b in alts):
+                return self._atom(("unk", f"match {ast.unparse(p)[:60]}", self.fresh())), [(n, ("unk", f"{n} captured", self.fresh())) for _c, b in alts for n, _t in b]
+            return f_or([c for c, _b in alts]), []
+        if isinstance(p, ast.MatchClass):
+            klass = self.eval(p.cls, st)
+            cond = [self.truth(("call", ("builtin", "isinstance"), (v, klass), ()))]
+            binds: list[tuple[str, Term]] = []
+            fields: "list[str] | None" = None
+            if p.patterns:
+                ci = self.repo.classes.get(klass[1]) if klass[0] == "cls" else None
+                if ci is not None and "__match_args__" not in ci.class_attrs and (ci.is_dataclass or any(b.endswith("NamedTuple") for b in ci.bases)):
+                    fields = [a for c in reversed(self.repo.mro(ci)) for a in c.ann_attrs]
+            for i, q in enumerate(p.patterns):
+                if fields is None or i >= len(fields):
+                    return self._atom(("unk", f"match {ast.unparse(p)[:60]}", self.fresh())), [(n.name, ("unk", f"{n.name} captured", self.fresh())) for n in ast.walk(p) if isinstance(n, (ast.MatchAs, ast.MatchStar)) and n.name]
+                c, b = self._pattern(q, self._attr(v, fields[i], st, p), st)
+                cond.append(c)
+                binds += b
+            for attr, q in zip(p.kwd_attrs, p.kwd_patterns):
+                c, b = self._pattern(q, self._attr(v, attr, st, p), st)
+                cond.append(c)
+                binds += b
+            return f_and(cond), binds
+        # sequence / mapping / star patterns: not modelled - an unknown condition, unknown captures
+        return self._atom(("unk", f"match {ast.unparse(p)[:60]}", self.fresh())), [(n, ("unk", f"{n} captured", self.fresh())) for x in ast.walk(p) for n in ([x.name] if isinstance(x, (ast.MatchAs, ast.MatchStar)) and x.name else [x.rest] if isinstance(x, ast.MatchMapping) and x.rest else [])]
+
+    def _match_cases(self, v: Term, cases: list, st: State, node: ast.AST) -> State:
+        """`match v: case p1: ..; case p2: ..` as the chain `if v matches p1: .. elif v matches p2: ..`."""
+        if not cases or not st.alive:
+            return st
+        case = cases[0]
+        c, binds = self._pattern(case.pattern, v, st)
+        a = st.copy()
+        for name, t in binds:
+            a.env[name] = t
+        if case.guard is not None:
+            c = f_and([c, self.truth(self.eval(case.guard, a))])
+        base = len(st.pc)
+        ctx = f_and(st.pc)
+        can_true = c != FALSE and satisfiable(f_and([ctx, c]))
+        can_false = c != TRUE and satisfiable(f_and([ctx, f_not(c)]))
+        if can_true and not can_false:
+            return self._block(case.body, a)
+        if can_false and not can_true:
+            return self._match_cases(v, cases[1:], st, node)
+        if not can_true and not can_false:
+            st.alive = False
+            return st
+        a.pc = a.pc + (c,)
+        b = st
+        b.pc = b.pc + (f_not(c),)
+        a = self._block(case.body, a)
+        b = self._match_cases(v, cases[1:], b, node)
+        return self._merge(a, b, base)
+
     def _merge(self, a: State, b: State, base: int) -> State:
         if not a.alive:
             return b
@@ -1022,16 +1105,86 @@ class SymX:
             del self.events[mark:]
         return changed
 
+    def _chain_parts(self, node: ast.expr, st: State) -> "list[ast.expr] | None":
+        """The iterables that `itertools.chain(a, b, ..)` / `chain.from_iterable([a, b, ..])` / `[*a, *b]` walks one after the other,
+        when at least one of them is a generator of the repository (which is then executed in place, element by element)."""
+        parts: "list[ast.expr] | None" = None
+        if isinstance(node, ast.Call) and not node.keywords:
+            try:
+                f = self.eval(node.func, st) if isinstance(node.func, (ast.Name, ast.Attribute)) else None
+            except AnalysisError:
+                f = None
+            if f == ("lib", "itertools.chain") and node.args and not any(isinstance(a, ast.Starred) for a in node.args):
+                parts = list(node.args)
+            elif f is not None and (f == ("lib", "itertools.chain.from_iterable") or f[0] == "attr" and f[1] == ("lib", "itertools.chain") and f[2] == "from_iterable") and len(node.args) == 1 and isinstance(node.args[0], (ast.List, ast.Tuple)) and not any(isinstance(a, ast.Starred) for a in node.args[0].elts):
+                parts = list(node.args[0].elts)
+        elif isinstance(node, (ast.List, ast.Tuple)) and node.elts and all(isinstance(a, ast.Starred) for a in node.elts):
+            parts = [a.value for a in node.elts]
+        if not parts or not any(self._generator_callee(a, st) is not None for a in parts):
+            return None
+        return parts
+
+    def _collected_runs(self, it: Term) -> "list[int] | None":
+        """Ids of the collected generator runs whose values `it` holds, in order (`list(gen(..))`, `list(chain(g1(..), g2(..)))`, a
+        never-mutated list built from them, `[*g1(..), *g2(..)]`); None when it holds anything else or a run had effects."""
+        t = it
+        for _ in range(6):
+            if t[0] == "call" and t[1] in (("builtin", "list"), ("builtin", "tuple"), ("builtin", "iter")) and len(t[2]) == 1 and not t[3]:
+                t = t[2][0]
+            elif t[0] == "box" and t[2] in ("list", "tuple") and self._never_mutated(t):
+                t = t[3]
+            else:
+                break
+        if t[0] == "yields":
+            run = self.gen_calls.get(t[2])
+            return [t[2]] if run is not None and run[5] else None
+        parts = None
+        if t[0] == "call" and t[1] == ("lib", "itertools.chain") and t[2] and not t[3]:
+            parts = [x for x in t[2]]
+        elif t[0] == "binop" and t[1] == "+":
+            parts = [t[2], t[3]]
+        elif t[0] in ("list", "tuple") and t[1] and all(x[0] == "star" for x in t[1]):
+            parts = [x[1] for x in t[1]]
+        if parts is None:
+            return None
+        out: list[int] = []
+        for x in parts:
+            sub = self._collected_runs(x)
+            if sub is None:
+                return None
+            out += sub
+        return out
+
     def _for(self, s: ast.For, st: State) -> State:
         targets = _names_of_target(s.target)
         assigned = (_assigned_names(s.body) - self._inplace_only(s.body, st)) | targets
         early = _exits_early(s.body)
+        parts = None if early or s.orelse else self._chain_parts(s.iter, st)
+        if parts is not None:
+            # a loop over a concatenation is the sequence of the loops over its parts (same target, same body)
+            for a in parts:
+                if not st.alive:
+                    break
+                piece = ast.For(target=s.target, iter=a, body=s.body, orelse=[], lineno=s.lineno, col_offset=s.col_offset)
+                ast.copy_location(piece, s)
+                st = self._for(piece, st)
+            return st
         gen = self._generator_callee(s.iter, st)
         if gen is not None:
             # a repo generator: executed in place, the loop body runs at every `yield`
             st = self._for_generator(s, st, gen, assigned, early)
         else:
             it = self.eval(s.iter, st)
+            lazy = None if early or s.orelse else self._collected_runs(it)
+            if lazy:
+                # the values were collected from generators that change nothing: the loop is the sequence of loops over these runs
+                for gid in lazy:
+                    callee_, call_, recv_, args_, kwargs_, _pure = self.gen_calls[gid]
+                    if not st.alive or len(self.frames) > self.max_depth or callee_.fq in [f.fi.fq for f in self.frames]:
+                        break
+                    st = self._for_generator(s, st, (callee_, call_), assigned, early, operands=(recv_, args_, kwargs_))
+                else:
+                    return st
             items = self._display_items(it)
             if items is None and not (it[0] == "box" and it[3][0] in ("list", "tuple") and not it[3][1]):
                 items = self._elements(it, st)
@@ -1396,13 +1549,13 @@ class SymX:
             return None
         return callee, node
 
-    def _for_generator(self, s: ast.For, st: State, gen: "tuple[FuncInfo, ast.Call]", assigned: set[str], early: bool) -> State:
+    def _for_generator(self, s: ast.For, st: State, gen: "tuple[FuncInfo, ast.Call]", assigned: set[str], early: bool, operands: "tuple | None" = None) -> State:
         callee, call = gen
         depth = len(st.envs)
         lid = self.fresh()
         loop = Loop(lid, "gen", ("fn", callee.fq), None, self.fi, s, early)
         caller_frame = self.frame
-        recv, args, kwargs = self._call_operands(call, st)
+        recv, args, kwargs = operands if operands is not None else self._call_operands(call, st)
         self._havoc_names(st, assigned, lid)
         targets = _names_of_target(s.target)
 
@@ -1446,6 +1599,14 @@ class SymX:
                 _res, out = self._enter(callee, call, recv, args, kwargs, st, on_yield=fr.on_yield)
                 out.alive = True
                 return out
+            parts = self._chain_parts(node.value, st)
+            if parts is not None:
+                for a in parts:
+                    piece = ast.YieldFrom(value=a)
+                    ast.copy_location(piece, node)
+                    st = self._yield(piece, st)
+                    st.alive = True
+                return st
             inner = self.eval(node.value, st)
             if inner[0] == "yields":
                 saved = st.pc
@@ -2232,11 +2393,15 @@ class SymX:
                 return gst
 
             self.loops.append(loop)
+            mark = len(self.events)
             try:
                 self._enter(callee, call, recv, args, kwargs, st, on_yield=collect)
             finally:
                 self.loops.pop()
             st.alive = True
+            # a run that changed nothing can be repeated where a `for` loop of ours consumes the values one by one
+            pure = all(ev.kind == "call" and not (ev.recv is not None and ev.recv[0] in ("box", "new")) for ev in self.events[mark:])
+            self.gen_calls[gid] = (callee, call, recv, args, kwargs, pure)
             return ("yields", tuple(yielded), gid)
         if _is_generator(callee) or not self._may_enter(callee) or len(self.frames) > self.max_depth or callee.fq in [f.fi.fq for f in self.frames]:
             if callee.cls is not None and recv is not None and not callee.is_staticmethod and callee.outer is None:
@@ -2760,6 +2925,12 @@ def _assigned_names(stmts: Iterable[ast.AST]) -> set[str]:
                     real.add(n.name)
                 for t in tgts:
                     real |= {x.id for x in ast.walk(t) if isinstance(x, ast.Name) and isinstance(x.ctx, (ast.Store, ast.Del))}
+    for s in stmts:
+        for n in _walk_own(s):
+            if isinstance(n, (ast.MatchAs, ast.MatchStar)) and n.name:
+                real.add(n.name)
+            elif isinstance(n, ast.MatchMapping) and n.rest:
+                real.add(n.rest)
     return (out - comp_only) | real
 
 
